@@ -369,7 +369,7 @@ func (vc *VC) modularCall(fr *frame, callee *ssa.Function, key string, c *Contra
 	c.Used = true
 	env := &SpecEnv{vc: vc, vars: map[string]Val{}, st: st, old: st.heap.clone(), contract: c, reach: st.reach, pkg: vc.eng.specPkg(callee)}
 	names := c.Params
-	if callee != nil {
+	if callee != nil && len(callee.Params) > 0 {
 		names = nil
 		for _, p := range callee.Params {
 			names = append(names, p.Name())
@@ -431,13 +431,23 @@ func (vc *VC) modularCall(fr *frame, callee *ssa.Function, key string, c *Contra
 	}
 	post.oldVars = env.vars
 	bindResults(post.vars, res, rt, sig)
-	for _, e := range c.Ensures {
-		t, err := post.evalBool(e.Expr)
-		if err != nil {
-			vc.errorf("%s: ensures of %s: %v", vc.fnKey, key, err)
-			continue
+	// the callee's ghost variables are universally quantified: its postconditions are instantiated
+	// at every combination of the caller's ghost terms of the same sort
+	for _, inst := range vc.ghostInstances(c, post) {
+		for k, v := range inst {
+			post.vars[k] = v
 		}
-		vc.assume(st.reach, t)
+		for _, e := range c.Ensures {
+			t, err := post.evalBool(e.Expr)
+			if err != nil {
+				if len(c.Ghosts) > 0 && strings.Contains(err.Error(), "unknown identifier") {
+					continue // mentions a ghost for which the caller has no term
+				}
+				vc.errorf("%s: ensures of %s: %v", vc.fnKey, key, err)
+				continue
+			}
+			vc.assume(st.reach, t)
+		}
 	}
 	if c.Extern || c.Trusted {
 		vc.assumed["assumed contract: "+key] = true
@@ -460,4 +470,40 @@ func bindResults(vars map[string]Val, res Val, rt types.Type, sig *types.Signatu
 	}
 	vars["result"] = res
 	vars["result0"] = res
+}
+
+
+// ghostInstances enumerates bindings of the callee's ghost variables to caller ghost terms.
+func (vc *VC) ghostInstances(c *Contract, env *SpecEnv) []map[string]Val {
+	insts := []map[string]Val{{}}
+	for _, g := range c.Ghosts {
+		t, err := env.resolveType(g.Type)
+		if err != nil {
+			continue
+		}
+		srt := vc.S.sortOf(t)
+		var cands []Val
+		for _, term := range vc.ghostByKey[srt] {
+			cands = append(cands, vc.mkVal(term, t))
+		}
+		if len(cands) == 0 {
+			continue
+		}
+		var next []map[string]Val
+		for _, m := range insts {
+			for _, cv := range cands {
+				n := map[string]Val{}
+				for k, v := range m {
+					n[k] = v
+				}
+				n[g.Name] = cv
+				next = append(next, n)
+			}
+		}
+		if len(next) > 64 {
+			next = next[:64]
+		}
+		insts = next
+	}
+	return insts
 }
